@@ -13,7 +13,7 @@ TECH = {
     'C02': ('Hypothesis-generated EM histories; monotone-likelihood invariant with independently computed densities', '4 C02'),
     'C03': ('Hypothesis-generated separable scenes; arg-max/prototype validity predicate', '4 C03'),
     'C04': ('metamorphic property-based testing: per-point complex gain fields', '4 C04'),
-    'C05': ('metamorphic property-based testing: class relabelling (all K! for K<=4)', '4 C05'),
+    'C05': ('metamorphic property-based testing: class relabelling (all K! for K<=4), also at starts searched next to a decision boundary of the E-step (bisection between generated cases)', '4 C05'),
     'C06': ('differential property-based testing: stacked call vs stand-alone slices', '4 C06'),
     'C07': ('differential property-based testing vs scipy.stats / quadrature / high-precision normalisers', '4 C07'),
     'C08': ('differential property-based testing vs naive loop estimators and a reference EM; repetition law', '4 C08'),
